@@ -160,6 +160,7 @@ class Observation:
         self.dump = class_dump()
         self.problems = []            # (key, message)
         self.crash = None
+        self.early = []               # (constant, category stamp during static initialisation of a client TU, stamp in main)
         self.rows = {}                # sym -> row (first variant), with labels collected
         self.variants = variants
         first = True
@@ -167,6 +168,11 @@ class Observation:
             args = ['--variant=%d' % v] + (['--only=' + only] if only else [])
             rc, out, err = C.run_exe(self.probe, args, '')
             cats, absanc, ifaces, noiface, nodes = parse_probe(out)
+            for ln in out.splitlines():
+                if ln.startswith('Z '):
+                    m = re.match(r'Z (.*) early=(-?\d+) now=(-?\d+)$', ln)
+                    if m and v == variants[0]:
+                        self.early.append((m.group(1), int(m.group(2)), int(m.group(3))))
             if rc != 0:
                 self.crash = (v, rc, (nodes[-1]['label'] if nodes else '<static facts>'), err[-3000:])
             if first:
@@ -350,9 +356,16 @@ def run(tier):
         more = '' if len(failing) <= MAX_REPORTED else ' (%d classes fail in all; the first %d are reported)' % (len(failing), MAX_REPORTED)
         res.violation('class:' + r['cls'], 'implementation class %s (node built by %s): %s%s' % (r['cls'], r['labels'][0], '; '.join(bad), more),
                       row_replay(o, r, bad))
+    for what, early, now in o.early:
+        if early != now:
+            res.violation('static-init:' + what, 'the process-wide constant `%s` carries category %d (%s) when read during the static initialisation of a '
+                          'client translation unit linked before the library, and %d (%s) in main(): it is not constant-initialised' % (
+                              what, early, o.code_name.get(early, '?'), now, o.code_name.get(now, '?')),
+                          'static-init %s\n# category during static initialisation %d, in main %d' % (what, early, now))
     if o.crash:
         v, rc, label, err = o.crash
-        res.violation('crash', 'c06probe stopped (exit %d, variant %d) after observing `%s`\n%s' % (rc, v, label, err),
+        where = ' (nothing was printed: the probe died before main(), i.e. while a client translation unit read the process-wide constants during static initialisation)' if label == '<static facts>' else ''
+        res.violation('crash', 'c06probe stopped (exit %d, variant %d) after observing `%s`%s\n%s' % (rc, v, label, where, err),
                       'crash-after %s\nvariant %d\n' % (label, v))
     if not failing and not o.crash:
         for key, msg in o.problems[:MAX_REPORTED]:
@@ -372,6 +385,7 @@ def run(tier):
     res.cov['live_nodes_observed'] = sum(len(r['labels']) for r in o.rows.values())
     res.cov['view_pairs_checked'] = n_if * len(o.rows)
     res.cov['probe_variants'] = variants
+    res.cov['constants_read_during_static_initialisation'] = len(o.early)
     dist = {}
     for r in o.rows.values():
         k = '>'.join(o.hook_name(h) for h in r['chain'])
